@@ -15,7 +15,7 @@ from props import C15
 ID = "C05"
 SHRINKABLE = True     # replay() re-evaluates the oracle from the input alone
 TRUSTED = [
-    "correspondence harness (harness/props/C05.py, scan_real.py, scan_streams.py)",
+    "correspondence harness (harness/props/C05.py, scan_real.py, scan_streams.py, file_front.py)",
     "translator/patterns.py (shipped header patterns -> Gen/Languages.lean)",
     "modelled, not verified: Pygments lexers (contract checked per input, see C16)",
 ]
@@ -260,7 +260,194 @@ def real_total(lang, code):
         os.unlink(p); os.rmdir(d)
 
 
+# ---- observation through files: Scanner.scan_path(root).files, fresh and with a cached report after a history ---------
+
+def _lang_of(rel):
+    """the supported language Pygments resolves the file NAME to (None: not a file Code Limit analyses)"""
+    from gen import names as gnames
+    l = gnames.resolves_to(os.path.basename(rel))
+    return l if l in sr.LANGS else None
+
+
+def tree_plan(ctx):
+    """-> (files {rel: bytes} in creation order, ops): a tree of generated programs in all languages (function names drawn
+    with replacement from words that are keywords in another supported language), malformed texts, LF / CR LF / CR / mixed
+    line ends, UTF-8 signatures, file names from harness/gen/names.py (every name Pygments maps to the language, NFC / NFD
+    twins in one directory with different contents, awkward characters), and a history to replay against a cached report:
+    renames and moves keeping the bytes (also to another language's extension, preferably one for which a function name
+    of the file is not an identifier), contents replaced or swapped with back-dated modification times, removals"""
+    import file_front as ff
+    from gen import names as gnames
+    rnd = ctx.rng("c05tree")
+    files = {}
+    dirs = ["", "src", os.path.join("src", "pkg"), "lib"]
+
+    soup_pool = [t for (l, t) in scan_streams.soups(ctx, 60, "c05treesoup") if "\r" not in t] or ["x"]
+
+    def content(lang):
+        if rnd.random() < 0.15:
+            text = rnd.choice(soup_pool)
+        else:
+            text = scan_streams.named_program(lang, rnd, extras=True).text(rnd.random() < 0.85)
+        return ff.to_bytes(text, rnd.choice(ff.NEWLINES), rnd.random() < 0.1, rnd)
+    for lang in sr.LANGS:
+        for i in range(ctx.pick(5, 25)):
+            d = rnd.choice(dirs)
+            name = ff.pick_name(lang, rnd, "f%d" % len(files), sr.EXT[lang])
+            if name in [os.path.basename(r) for r in files if os.path.dirname(r) == d]:
+                name = "f%d.%s" % (len(files), sr.EXT[lang])
+            files[os.path.join(d, name)] = content(lang)
+    twins = []
+    for lang in sr.LANGS:
+        twins += [(lang, a, b) for (a, b) in gnames.unicode_twins("." + sr.EXT[lang])]
+    rnd.shuffle(twins)
+    for k, (lang, nfc, nfd) in enumerate(twins[:ctx.pick(10, 40)]):
+        d = rnd.choice(dirs)
+        pair = [os.path.join(d, "t%d%s" % (k, nfc)), os.path.join(d, "t%d%s" % (k, nfd))]
+        if k % 2:
+            pair.reverse()          # creation order decides the directory order on most file systems
+        for r in pair:
+            files[r] = content(lang)
+    for lang in rnd.sample(sr.LANGS, 3):
+        for name in rnd.sample(gnames.awkward_names("." + sr.EXT[lang]), 3):
+            files[os.path.join(rnd.choice(dirs), name)] = content(lang)
+    # history
+    ops = []
+    rels = list(files)
+    exts = {l: sr.EXT[l] for l in sr.LANGS}
+    for rel in rnd.sample(rels, len(rels) // 2):
+        lang = _lang_of(rel)
+        d, base = os.path.split(rel)
+        stem = os.path.splitext(base)[0] or base
+        k = rnd.random()
+        if k < 0.45 and lang:
+            # the same bytes under another language's extension
+            text = ff.read_back(files[rel])
+            import re
+            words = set(re.findall(r"[A-Za-z_]\w*", text))
+            hostile = [l2 for l2 in sr.LANGS if l2 != lang and any(scan_streams.is_identifier_in(lang, w) and not scan_streams.is_identifier_in(l2, w)
+                                                                  for w in words & set(scan_streams.cross_names(lang)))]
+            l2 = rnd.choice(hostile) if hostile and rnd.random() < 0.7 else rnd.choice([l for l in sr.LANGS if l != lang])
+            ops.append({"op": "rename", "from": rel, "to": os.path.join(rnd.choice([d, d, rnd.choice(dirs)]), "%s_r.%s" % (stem, exts[l2]))})
+        elif k < 0.6:
+            ops.append({"op": "rename", "from": rel, "to": os.path.join(rnd.choice(dirs), "mv_" + base)})
+        elif k < 0.8 and lang:
+            ops.append({"op": "write", "rel": rel, "data_latin1": content(rnd.choice(sr.LANGS)).decode("latin-1"), "mtime": 1000000000 + rnd.randrange(10 ** 8)})
+        elif k < 0.9:
+            ops.append({"op": "remove", "rel": rel})
+    return files, ops
+
+
+def tree_eval(files, ops, only=None, spellings=False):
+    """build the tree, scan it, replay the history, scan it again with the first scan's report as cache;
+    -> (files judged, failures); `only`: judge just this final path"""
+    import file_front as ff
+    fails, judged = [], 0
+    with ff.Tree("c05tree_") as tree:
+        for rel, data in files.items():
+            tree.write(rel, data)
+        origin = {rel: rel for rel in files}
+
+        def judge(cb, err, phase):
+            nonlocal judged
+            if err:
+                fails.append({"file": None, "phase": phase, "observed": "scan_path: " + err, "required": "scan_path completes"}); return
+            got = ff.entries(cb)
+            for rel, data in sorted(tree.files.items()):
+                lang = _lang_of(rel)
+                if lang is None or (only is not None and rel != only):
+                    continue
+                judged += 1
+                e = got.get(rel)
+                if e is None:
+                    fails.append({"file": rel, "phase": phase, "prio": 2, "observed": "scan_path(root).files has no entry %r; entries with the same normalised spelling: %r" % (rel, [k for k in got if _nf(k) == _nf(rel)]),
+                                  "required": "the file's measurements are listed under the path of the file"}); continue
+                text = ff.read_back(data)
+                bad = oracle(lang, text, ff.encode_reply(e[1]))[:1]
+                for b in bad:
+                    fails.append({"file": rel, "phase": phase, "prio": 0, "observed": "%s%s (listed as %s; the file has %d lines, its name says %s)" % (e[1][:4], " ..." if len(e[1]) > 4 else "", e[0], len(text.split("\n")), lang), "required": b})
+                if e[2] != sum(m[5] for m in e[1]):
+                    fails.append({"file": rel, "phase": phase, "prio": 0, "observed": "loc=%d" % e[2], "required": "file total = sum of lengths = %d" % sum(m[5] for m in e[1])})
+                if not bad and e[0] != lang:
+                    fails.append({"file": rel, "phase": phase, "prio": 1, "observed": "listed as %s" % e[0], "required": "analysed as %s, the language of its name" % lang})
+            for rel in got:
+                if rel not in tree.files and (only is None or _nf(rel) == _nf(only)):
+                    fails.append({"file": rel, "phase": phase, "prio": 2, "observed": "scan_path(root).files lists %r" % rel, "required": "every listed path names a file of the tree"})
+        cb1, err = tree.scan()
+        judge(cb1, err, 1)
+        if cb1 is not None and ops:
+            report = ff.report_of(cb1)
+            for op in ops:
+                try:
+                    if op["op"] == "rename" and op["from"] in tree.files and op["to"] not in tree.files:
+                        tree.rename(op["from"], op["to"]); origin[op["to"]] = origin.pop(op["from"], op["from"])
+                    elif op["op"] == "write" and op["rel"] in tree.files:
+                        tree.write(op["rel"], op["data_latin1"].encode("latin-1"), op.get("mtime"))
+                    elif op["op"] == "remove" and op["rel"] in tree.files:
+                        tree.remove(op["rel"])
+                except OSError:
+                    pass
+            cb2, err = tree.scan(report)
+            judge(cb2, err, 2)
+            if only is None and spellings:
+                # the same tree named through a symbolic link and through `<root>/<dir>/..`, fresh and with the cache
+                link = tree.root + "_link"
+                try:
+                    os.symlink(tree.root, link)
+                    cb3, err = tree.scan(None, link)
+                    judge(cb3, err, 3)
+                finally:
+                    if os.path.islink(link):
+                        os.unlink(link)
+                sub = sorted({r.split(os.sep)[0] for r in tree.files if os.sep in r})
+                if sub:
+                    cb4, err = tree.scan(report, os.path.join(tree.root, sub[0], ".."))
+                    judge(cb4, err, 4)
+        for f in fails:
+            f["origin"] = origin.get(f["file"])
+    fails.sort(key=lambda f: f.get("prio", 0))
+    return judged, fails
+
+
+def _nf(s):
+    import unicodedata
+    return unicodedata.normalize("NFC", s)
+
+
+def tree_failures(ctx, dist=None):
+    files, ops = tree_plan(ctx)
+    judged, raw = tree_eval(files, ops, None, True)
+    if dist is not None:
+        dist["tree"] = {"files": len(files), "history_operations": len(ops), "files_judged_over_all_scans": judged,
+                        "renamed_to_another_language": sum(1 for o in ops if o["op"] == "rename" and _lang_of(o["from"]) != _lang_of(o["to"])),
+                        "twin_names": sum(1 for r in files if _nf(r) != r), "non_lf_line_ends": sum(1 for d in files.values() if b"\r" in d)}
+    out = []
+    for f in raw[:6]:
+        # a small scenario that still fails: the file (under the name it was created with), the files whose names are
+        # equal to its name up to Unicode normalisation, the operations that touch it
+        keep = {r for r in files if f["file"] is not None and (r in (f["file"], f.get("origin")) or _nf(r) in (_nf(f["file"]), _nf(f.get("origin") or "")))}
+        sub = {r: files[r] for r in files if r in keep}
+        sops = [o for o in ops if o.get("from") in keep or o.get("rel") in keep or o.get("to") in keep]
+        small = tree_eval(sub, sops, None)[1] if sub else []
+        if small:
+            g = small[0]
+            inp = {"stream": "tree", "files_latin1": {r: d.decode("latin-1") for r, d in sub.items()}, "ops": sops}
+        else:
+            g = f
+            inp = {"stream": "tree", "files_latin1": {r: d.decode("latin-1") for r, d in files.items()}, "ops": ops}
+        out.append({"input": dict(inp, file=g["file"], phase=g["phase"]), "observed": g["observed"], "required": g["required"]})
+    return judged, out
+
+
+def _tree_job(tier):
+    import main
+    dist = {}
+    n, fails = tree_failures(main.Ctx(ID, tier), dist)
+    return n, fails, dist
+
+
 def correspond(ctx):
+    tree_run = scan_streams.Heavy(_tree_job, [ctx.tier], 1)        # runs next to everything else
     cs = cases(ctx)
     heavy = scan_streams.Heavy(_big_work, big_jobs(ctx))          # runs while the small inputs are compared with the model
     both = scan_streams.chunked_map(_chunk_work, cs)                # real analysis and direct oracle side by side
@@ -282,6 +469,10 @@ def correspond(ctx):
             dist["errors"] += 1
     nbig, bfails = big_failures(ctx, dist, heavy)
     fails += bfails
+    ntree, tfails, tdist = tree_run.results()[0]
+    dist.update(tdist)
+    fails += tfails
+    nbig += ntree
     dist["byte_order_mark"] = sum(1 for (_, c) in cs if c.startswith(scan_streams.BOM))
     dist["bom_without_newline_with_functions"] = sum(1 for (l, c), r in zip(cs, real) if c.startswith(scan_streams.BOM) and "\n" not in c and r.startswith("ok") and not r.startswith("ok 0 "))
     dist["without_newline_with_functions"] = sum(1 for (l, c), r in zip(cs, real) if "\n" not in c and r.startswith("ok") and not r.startswith("ok 0 "))
@@ -301,7 +492,7 @@ def correspond(ctx):
             fails.append({"input": {"language": lang, "code": code}, "observed": repr(e), "required": "_analyze_file completes"})
     return {
         "evaluations": len(cs) + nbig + probes, "distinct_nontrivial": len(nontrivial) + nbig,
-        "rule": "malformed stream (prefixes, suffixes, line/token deletions, duplications, swaps of canonical programs and corpus files; token soups over each language's lexical alphabet; deep nesting; tiny inputs) + canonical programs + vendored corpus; configuration variants: canonical programs rendered on ONE line without any newline / behind a byte order mark / both, and a share of all other texts likewise (+ a blank replaced by a Unicode separator); single-line ladder 10^2 .. 10^6 characters (string literal, block comment followed by a function, short statements, one-line function; a quarter behind a byte order mark); programs of 10^2 .. 10^4 lines (one function / many functions), whole and cut at a random character - up to 10^4 characters against the model, above by the direct oracle only; second-scan probe on a sample (same token list and Language object, first result mutated; then a fresh analysis); non-trivial = distinct inputs with at least one reported measurement",
+        "rule": "FILES: a tree of generated programs in all languages (function names drawn with replacement from words that are keywords in another supported language) and malformed texts, with LF / CR LF / CR / mixed line ends and UTF-8 signatures, under file names from Pygments and Unicode (every name mapped to the language, NFC / NFD twins in one directory, awkward characters), observed through Scanner.scan_path(root).files: every file of a supported language is listed under its own path and language with well-formed measurements for ITS text; then a history (renames and moves keeping the bytes, also to another language's extension; contents replaced with back-dated modification times; removals) and a second scan_path with the first scan's report as cache, judged the same way; the final tree once more with the root spelled through a symbolic link and through `<root>/<dir>/..`; malformed stream (prefixes, suffixes, line/token deletions, duplications, swaps of canonical programs and corpus files; token soups over each language's lexical alphabet; deep nesting; tiny inputs) + canonical programs + vendored corpus; configuration variants: canonical programs rendered on ONE line without any newline / behind a byte order mark / both, and a share of all other texts likewise (+ a blank replaced by a Unicode separator); single-line ladder 10^2 .. 10^6 characters (string literal, block comment followed by a function, short statements, one-line function; a quarter behind a byte order mark); programs of 10^2 .. 10^4 lines (one function / many functions), whole and cut at a random character - up to 10^4 characters against the model, above by the direct oracle only; second-scan probe on a sample (same token list and Language object, first result mutated; then a fresh analysis); non-trivial = distinct inputs with at least one reported measurement",
         "samples": [{"language": l, "code": c[:120], "impl": r[:120]} for (l, c), r in list(zip(cs, real))[100:103]],
         "exhaustive": False, "distribution": dist,
         "disagreements": dis[:50], "oracle_failures": fails[:50],
@@ -316,11 +507,17 @@ def search(ctx, hints):
         for b in oracle(lang, code, r):
             fails.append({"input": {"language": lang, "code": code}, "observed": r[:300], "required": b})
     fails.sort(key=lambda f: len(f["input"]["code"]))
-    return fails[:10] + big_failures(ctx)[1][:3]
+    return fails[:10] + big_failures(ctx)[1][:3] + tree_failures(ctx)[1][:3]
 
 
 def replay(payload):
     inp = payload["input"]
+    if inp.get("stream") == "tree":
+        n, fs = tree_eval({r: d.encode("latin-1") for r, d in inp["files_latin1"].items()}, inp["ops"])
+        print("tree of %d files %s, %d history operations %s -> %s" % (len(inp["files_latin1"]), sorted(inp["files_latin1"])[:6], len(inp["ops"]),
+                                                                    [(o["op"], o.get("from") or o.get("rel"), o.get("to")) for o in inp["ops"]][:4],
+                                                                    [(f["file"], f["phase"], f["required"]) for f in fs[:3]] or "ok"))
+        return not fs
     code = inp["code"] if "code" in inp else big_text(inp)
     if inp.get("probe") == "second-scan":
         r, bad = "", second_scan_probe(inp["language"], code)
